@@ -95,6 +95,12 @@ func (c *FnCtx) callCommon(call *ssa.CallCommon, v ssa.Value, pos token.Pos) []s
 				key = key + "@" + self
 			}
 		}
+		// an assumed contract of a dependency written for this caller ("external sort.SliceStable@sortItems"):
+		// it may speak about the function value passed, whose contract is known at this call site
+		if sc := c.eng.specs.Contracts[c.eng.qualKey(callee)+"@"+c.eng.funcKey(c.fn)]; sc != nil && sc.External {
+			con = sc
+			key = c.eng.qualKey(callee) + "@" + c.eng.funcKey(c.fn)
+		}
 	} else if fk, obj, ok := c.fieldFuncCall(call); ok && c.eng.specs.Contracts[fk] != nil {
 		// a call of the function stored in a field of an object: an assumed contract may be given for
 		// it as "external field.T.f(obj, args...)", with the object holding the field as first parameter
